@@ -359,49 +359,17 @@ func c16R1(e *c16Env) {
 			c.Check(R, key+"|on-clone", call.Pos(), okClone,
 				ifelse(okClone, "the header is set on originalReq.Clone(ctx)", "the Authorization header is set on a request that is not a fresh clone of originalReq (the caller's request object, possibly reused for another host, keeps the token)"))
 			okVal, detail := true, ""
-			vals := e.SV.Leaves(args[2])
-			if len(vals) == 0 {
-				okVal, detail = false, "no value"
+			nAlt := 0
+			for _, cx := range e.SV.byFn[f] {
+				for _, ops := range c16Concat(e.SV, args[2], cx, 0) {
+					nAlt++
+					if why := e.authValueOK(ops, basic, bearer); why != "" {
+						okVal, detail = false, why
+					}
+				}
 			}
-			for _, hv := range vals {
-				bo, ok := hv.(*ssa.BinOp)
-				if !ok || bo.Op != token.ADD {
-					okVal, detail = false, "the header value "+describe(hv)+" is not <scheme prefix> + <token returned by Cache.GetToken/Set>"
-					continue
-				}
-				prefix, okP := constString(bo.X)
-				var want int64 = -1
-				switch prefix {
-				case "Basic ":
-					want = basic
-				case "Bearer ":
-					want = bearer
-				}
-				if !okP || want < 0 {
-					okVal, detail = false, "the header value does not start with a constant scheme prefix"
-					continue
-				}
-				toks := e.SV.Leaves(bo.Y)
-				if len(toks) == 0 {
-					okVal, detail = false, "no token"
-				}
-				for _, r := range toks {
-					if k, isK := r.(*ssa.Const); isK && k.Value != nil && k.Value.Kind() == constant.String && constant.StringVal(k.Value) == "" {
-						continue // the "" a helper returns next to an error
-					}
-					ex, isEx := r.(*ssa.Extract)
-					var cc *ssa.Call
-					if isEx && ex.Index == 0 {
-						cc, _ = ex.Tuple.(*ssa.Call)
-					}
-					if cc == nil || (CalleeName(cc) != c16Cache+"GetToken" && CalleeName(cc) != c16Cache+"Set") {
-						okVal, detail = false, "the token "+describe(r)+" is not the result of Cache.GetToken/Set"
-						continue
-					}
-					if sc, isK := c16ConstOf(e.SV, cc.Call.Args[2]); !isK || sc != want {
-						okVal, detail = false, "the token comes from a cache call of another scheme than the header prefix "+prefix
-					}
-				}
+			if nAlt == 0 {
+				okVal, detail = false, "no value"
 			}
 			c.Check(R, key+"|token-from-cache-of-same-scheme", call.Pos(), okVal,
 				ifelse(okVal, "value = scheme prefix + token returned by the cache for (host, that scheme)", detail))
@@ -410,6 +378,106 @@ func c16R1(e *c16Env) {
 	if nh == 0 {
 		c.LostAnchor(R, dn+": Authorization header assignments")
 	}
+}
+
+// c16Concat flattens a string concatenation (in context cx) into its operand
+// lists, one per combination of alternatives.
+func c16Concat(V *c14View, v ssa.Value, cx *c14Ctx, depth int) [][]c14CV {
+	var out [][]c14CV
+	for _, l := range V.LeavesIn(v, cx) {
+		bo, ok := l.V.(*ssa.BinOp)
+		if !ok || bo.Op != token.ADD || depth > 4 {
+			out = append(out, []c14CV{l})
+			continue
+		}
+		for _, xs := range c16Concat(V, bo.X, l.Ctx, depth+1) {
+			for _, ys := range c16Concat(V, bo.Y, l.Ctx, depth+1) {
+				out = append(out, append(append([]c14CV{}, xs...), ys...))
+			}
+		}
+		if len(out) > 64 {
+			return out
+		}
+	}
+	return out
+}
+
+// authValueOK: ops is `<scheme prefix> <token>` with the token returned by a
+// cache call of that very scheme.  The prefix is the literal "Basic "/"Bearer ",
+// or Scheme.String() of a value followed by " " (then the cache call must have
+// been made for the same scheme value).  Returns "" or what is wrong.
+func (e *c16Env) authValueOK(ops []c14CV, basic, bearer int64) string {
+	V := e.SV
+	if len(ops) < 2 {
+		return "the header value is not <scheme prefix> + <token returned by Cache.GetToken/Set>"
+	}
+	tok := ops[len(ops)-1]
+	pre := ops[:len(ops)-1]
+	var want int64 = -1
+	var schemeVals map[ssa.Value]bool
+	switch {
+	case len(pre) == 1:
+		p, ok := constString(pre[0].V)
+		switch {
+		case ok && p == "Basic ":
+			want = basic
+		case ok && p == "Bearer ":
+			want = bearer
+		default:
+			return "the header value does not start with a scheme prefix"
+		}
+	case len(pre) == 2:
+		call, isCall := pre[0].V.(*ssa.Call)
+		sp, isSp := constString(pre[1].V)
+		if !isCall || CalleeName(call) != "(~/registry/remote/auth.Scheme).String" || !isSp || sp != " " {
+			return "the header value does not start with a scheme prefix"
+		}
+		schemeVals = map[ssa.Value]bool{}
+		for _, l := range V.LeavesIn(call.Call.Args[0], pre[0].Ctx) {
+			schemeVals[l.V] = true
+		}
+	default:
+		return "the header value does not start with a scheme prefix"
+	}
+	if k, isK := tok.V.(*ssa.Const); isK && k.Value != nil && k.Value.Kind() == constant.String && constant.StringVal(k.Value) == "" {
+		return "" // the "" a helper returns next to an error
+	}
+	ex, isEx := tok.V.(*ssa.Extract)
+	var cc *ssa.Call
+	if isEx && ex.Index == 0 {
+		cc, _ = ex.Tuple.(*ssa.Call)
+	}
+	if cc == nil || (CalleeName(cc) != c16Cache+"GetToken" && CalleeName(cc) != c16Cache+"Set") {
+		return "the token " + describe(tok.V) + " is not the result of Cache.GetToken/Set"
+	}
+	got := V.LeavesIn(cc.Call.Args[2], tok.Ctx)
+	if len(got) == 0 {
+		return "the cache call's scheme is unknown"
+	}
+	for _, g := range got {
+		if want >= 0 {
+			if n, isK := constInt(g.V); !isK || n != want {
+				return "the token comes from a cache call of another scheme than the header prefix"
+			}
+			continue
+		}
+		if schemeVals[g.V] {
+			continue
+		}
+		// equal constants count as the same scheme
+		same := false
+		if n, isK := constInt(g.V); isK {
+			for sv := range schemeVals {
+				if m, isM := constInt(sv); isM && m == n && len(schemeVals) == 1 {
+					same = true
+				}
+			}
+		}
+		if !same {
+			return "the token comes from a cache call made for another scheme value than the one the header prefix is derived from"
+		}
+	}
+	return ""
 }
 
 // ---------- R2 ----------
